@@ -16,7 +16,7 @@ def queries(tier):
                     flags=["--memory-leak-check"], stubs=["libc.c", "c19_unused.c"],
                     bounds="element count 2..4 symbolic; %d calls from {value, advance, reset, clone-and-switch}" % k,
                     outside="more than %d calls; symbolic bounds (floating-point formulas); other generator kinds" % k))
-    heads = (0, 3, 5) if tier == "quick" else range(8)
+    heads = range(8)
     for h in heads:
         qs.append(Q("profile_text_h%d" % h, "C19/profile.c", units=["mptplot/values/iterator_profile.c", "mptcore/types/type_traits.c", "mptcore/misc/identifier.c",
                                                                 "mptcore/array/array_traits.c", "mptcore/meta/meta_reference_traits.c", "mptcore/event/command_traits.c", "mptcore/array/array_clone.c"],
